@@ -225,13 +225,25 @@ func runBtcd(s *Spend) (ok bool, errStr string, panicked bool) {
 			errStr = fmt.Sprintf("PANIC: %v", r)
 		}
 	}()
-	f := &fetcher{s.Tx, s.PrevOuts}
+	// every run gets its own copy of the transaction: verification reads the
+	// transaction and never writes it (blockchain checks the inputs of one
+	// transaction concurrently on the same *wire.MsgTx); a write is reported and
+	// cannot leak into the next case or a re-run
+	tx := s.Tx.Copy()
+	f := &fetcher{tx, s.PrevOuts}
 	var hc *txscript.TxSigHashes
-	if s.Tx.HasWitness() {
-		hc = txscript.NewTxSigHashes(s.Tx, f)
+	if tx.HasWitness() {
+		hc = txscript.NewTxSigHashes(tx, f)
 	}
 	po := s.PrevOuts[s.Idx]
-	vm, err := txscript.NewEngine(po.PkScript, s.Tx, s.Idx, s.Flags, nil, hc, po.Value, f)
+	before := txFingerprint(tx)
+	defer func() {
+		if !panicked && txFingerprint(tx) != before {
+			ok, panicked = false, true
+			errStr = "TRANSACTION MUTATED by script verification (outputs/inputs differ after Execute)"
+		}
+	}()
+	vm, err := txscript.NewEngine(po.PkScript, tx, s.Idx, s.Flags, nil, hc, po.Value, f)
 	if err != nil {
 		return false, err.Error(), false
 	}
@@ -239,6 +251,35 @@ func runBtcd(s *Spend) (ok bool, errStr string, panicked bool) {
 		return false, err.Error(), false
 	}
 	return true, "", false
+}
+
+// txFingerprint is a cheap structural digest of the fields script verification
+// could touch (FNV-1a over counts, values, sequences, script lengths and first
+// / last script bytes).
+func txFingerprint(tx *wire.MsgTx) uint64 {
+	h := uint64(14695981039346656037)
+	mix := func(v uint64) { h = (h ^ v) * 1099511628211 }
+	sl := func(b []byte) {
+		mix(uint64(len(b)))
+		if len(b) > 0 {
+			mix(uint64(b[0])<<8 | uint64(b[len(b)-1]))
+		}
+	}
+	mix(uint64(uint32(tx.Version)))
+	mix(uint64(tx.LockTime))
+	mix(uint64(len(tx.TxIn)))
+	for _, in := range tx.TxIn {
+		mix(uint64(in.Sequence))
+		mix(uint64(in.PreviousOutPoint.Index))
+		sl(in.SignatureScript)
+		mix(uint64(len(in.Witness)))
+	}
+	mix(uint64(len(tx.TxOut)))
+	for _, o := range tx.TxOut {
+		mix(uint64(o.Value))
+		sl(o.PkScript)
+	}
+	return h
 }
 
 func runRefQuirks(s *Spend, q refscript.Quirks) refscript.Err {
